@@ -411,6 +411,56 @@ func init() {
 		fr.i.poolGet(nv)
 		return nv
 	}
+	// sync.Map: an ordered map from interface keys to interface values
+	smap := func(fr *frame, p value) *omap {
+		k := p.(*value)
+		m := fr.i.syncMaps[k]
+		if m == nil {
+			m = makeMap(types.NewInterfaceType(nil, nil))
+			fr.i.syncMaps[k] = m
+		}
+		return m
+	}
+	intrinsics["(*sync.Map).Load"] = func(fr *frame, args []value) value {
+		if e := smap(fr, args[0]).find(fr.ex(), args[1]); e != nil {
+			return tuple{e.val, true}
+		}
+		return tuple{iface{}, false}
+	}
+	intrinsics["(*sync.Map).Store"] = func(fr *frame, args []value) value {
+		smap(fr, args[0]).insert(fr.ex(), args[1], args[2])
+		return nil
+	}
+	intrinsics["(*sync.Map).LoadOrStore"] = func(fr *frame, args []value) value {
+		m := smap(fr, args[0])
+		if e := m.find(fr.ex(), args[1]); e != nil {
+			return tuple{e.val, true}
+		}
+		m.insert(fr.ex(), args[1], args[2])
+		return tuple{args[2], false}
+	}
+	intrinsics["(*sync.Map).LoadAndDelete"] = func(fr *frame, args []value) value {
+		m := smap(fr, args[0])
+		if e := m.find(fr.ex(), args[1]); e != nil {
+			v := e.val
+			m.delete(fr.ex(), args[1])
+			return tuple{v, true}
+		}
+		return tuple{iface{}, false}
+	}
+	intrinsics["(*sync.Map).Delete"] = func(fr *frame, args []value) value {
+		smap(fr, args[0]).delete(fr.ex(), args[1])
+		return nil
+	}
+	intrinsics["(*sync.Map).Range"] = func(fr *frame, args []value) value {
+		m := smap(fr, args[0])
+		for _, e := range append([]*mentry(nil), m.entries...) {
+			if r, ok := call(fr.i, fr, 0, args[1], []value{e.key, e.val}).(bool); ok && !r {
+				break
+			}
+		}
+		return nil
+	}
 	intrinsics["(*sync.Pool).Put"] = func(fr *frame, args []value) value {
 		p := args[0].(*value)
 		st := fr.i.pools[p]
